@@ -90,5 +90,18 @@ for pid in ids or sorted(props):
                          "a sub-slice that starts in the middle of a larger array, a string built from bytes containing NULs or invalid UTF-8, a value at the exact maximum the statement permits, the same "
                          "object passed for two parameters, an interface holding a typed nil), an error or short count from a caller-supplied reader/writer at an unusual moment, a message type or element type the "
                          "statement covers but the tests never use, or a legal call made on an object that is in a legal but unusual state. Everything the existing tests and ordinary use do must keep working.")
+    if variant == "op":
+        variant = "o" if int(pid[1:]) % 2 else "p"
+    if variant == "o":
+        hint = common.replace("six earlier rounds", "twelve earlier rounds") + ("THIS ROUND'S RESTRICTION: the defect must NOT sit in the function the property names but in something it DEPENDS on - a helper in "
+                         "another file or another package of this module (a lookup table, a mask, a shared utility, a constructor whose output the named function consumes), changed in a way that keeps that helper's own "
+                         "tests and its other callers happy and breaks the property only through one call path, for a narrow class of inputs. Or, alternatively, a defect that manifests only under a particular BUILD "
+                         "CONFIGURATION that a user may legitimately choose: GOARCH=386 (32-bit int), the race detector or -gcflags=all=-N (different memory layout and inlining), the module's own build tag `debug`, or a "
+                         "newer Go toolchain (go1.26.8 is installed as `go1.26.8`) - state in the README which configuration is needed and verify the demonstration under it (and that it passes under it without the change).")
+    elif variant == "p":
+        hint = common.replace("six earlier rounds", "twelve earlier rounds") + ("THIS ROUND'S RESTRICTION: REWRITE the core algorithm of one function the property names in a different, plausibly faster or simpler "
+                         "style (word-parallel bit tricks instead of a loop, a closed formula instead of a walk, binary search instead of a scan, a table instead of arithmetic, iteration instead of recursion, one pass "
+                         "instead of two) such that the new version is correct on the overwhelming majority of inputs - including every input of the existing tests and typical random inputs - and wrong on a narrow, "
+                         "structurally defined class that follows from a subtle flaw in the new algorithm's reasoning (not from an injected special case). Say in the README what the flaw in the reasoning is.")
     open(os.path.join(root, pid + ".prompt.txt"), "w").write(tmpl.replace("@DIR@", d).replace("@PROPERTY@", text).replace("@HINT@", hint))
     print(pid, len(tried.get(pid, [])), "earlier mechanisms")
